@@ -64,22 +64,23 @@ def states_module(states):
             ",\n".join(tla_state(s) for s in states) + "\n>>\n====\n")
 
 
-def oracle_cfg(gen_cfg_text, bounds=None):
+def oracle_cfg(gen_cfg_text, bounds=None, sanity=True):
     """The oracle configuration is the CONSTANTS block of the generating cfg with the oracle's
     INIT/NEXT and invariants."""
     head = re.split(r"^(?:SPECIFICATION|INIT)\b", gen_cfg_text, flags=re.M)[0]
     if bounds:
         head = re.sub(r"Bounds <- \w+", "Bounds <- " + bounds, head)
-    return head + "INIT OInit\nNEXT ONext\nINVARIANT Sanity\nINVARIANT EmitAnswers\nCHECK_DEADLOCK FALSE\n"
+    return head + "INIT OInit\nNEXT ONext\n%sINVARIANT EmitAnswers\nCHECK_DEADLOCK FALSE\n" % (
+        "INVARIANT Sanity\n" if sanity else "")
 
 
-def run_oracle(ctx, cfg_name, states, bounds=None, label="oracle", timeout=900):
+def run_oracle(ctx, cfg_name, states, bounds=None, label="oracle", timeout=900, sanity=True):
     """states: dict skey -> normalised state.  Returns dict skey -> answers per field."""
     with open(os.path.join(SPEC, "kvindex", cfg_name)) as fh:
         cfg_text = fh.read()
     lst = list(states.values())
     res = ctx.tlc("kvindex", "KVIndex", "oracle.cfg", workers=8, timeout=timeout, count=False, label=label,
-                  files={"oracle.cfg": oracle_cfg(cfg_text, bounds), "KVIndexStates.tla": states_module(lst)})
+                  files={"oracle.cfg": oracle_cfg(cfg_text, bounds, sanity), "KVIndexStates.tla": states_module(lst)})
     run_oracle.universe = uni_norm(res.msgs["universe"][0])
     ans = {}
     for m in res.msgs.get("ans", []):
@@ -130,9 +131,10 @@ def cmp_counts(method, got, want):
     return None
 
 
-def compare_field(x, b):
-    """x: oracle answers for one field, b: harness body for it.  Returns the list of differing
-    queries as (method, shape, detail) in a fixed priority order (root cause first)."""
+def compare_field(x, b, known_ids):
+    """x: oracle answers for one field, b: harness body for it, known_ids: the document ids of the
+    universe.  Returns the list of differing queries as (method, shape, detail) in a fixed priority
+    order (root cause first)."""
     out = []
 
     def add(p, detail):
@@ -146,7 +148,11 @@ def compare_field(x, b):
         w = want_ids.get(tk(t))
         if w is None:
             raise Inconclusive("oracle has no match answer for term %s" % t)
-        add(cmp_set("GetTermMatch", ids, w, "stale-ids", "missing-ids"), dict(term=t, got=ids, want=sorted(w)))
+        if any(i not in known_ids for i in ids):
+            add(("GetTermMatch", "ids-of-no-document(%s-term)" % ("number" if t[0] == "n" else "string")),
+                dict(term=t, got=ids, want=sorted(w)))
+        else:
+            add(cmp_set("GetTermMatch", ids, w, "stale-ids", "missing-ids"), dict(term=t, got=ids, want=sorted(w)))
     for t, ids in b["match1"]:
         w = want_ids[tk(t)]
         if len(ids) != min(1, len(w)) or not set(ids) <= w:
@@ -201,8 +207,9 @@ def compare_field(x, b):
 
 
 class Comparer:
-    def __init__(self, answers, defs):
+    def __init__(self, answers, defs, universe):
         self.answers, self.defs = answers, defs
+        self.known_ids = set(universe.get("docs") or [])
         self.cache = {}
         self.compared = 0
 
@@ -220,7 +227,7 @@ class Comparer:
                 raise Inconclusive("harness did not observe registered field %s" % f)
             if "harness_err" in body[f]:
                 raise Inconclusive("harness error: %s" % body[f]["harness_err"])
-            for (m, shape, detail) in compare_field(x[f], body[f]):
+            for (m, shape, detail) in compare_field(x[f], body[f], self.known_ids | set(state["docs"])):
                 out.append((m, shape, dict(detail, field=f)))
         for f, b in body.items():
             if f not in state["fields"] and "hang" in b:
@@ -261,7 +268,7 @@ class Beh:
         self.steps, self.states, self.obs, self.sched = steps, states, obs, sched
 
 
-def execute(ctx, name, universe, behaviours, emb, jobs=8, qtimeout=10, timeout=1500, fresh=False):
+def execute(ctx, name, universe, behaviours, emb, jobs=8, qtimeout=10, timeout=1500, fresh=False, via=None):
     """Runs the behaviours through harness/kvidx; returns (responses by index, observation bodies by id)."""
     inp = os.path.join(ctx.scratch, "kvidx_%s_in.ndjson" % name)
     with open(inp, "w") as fh:
@@ -271,6 +278,8 @@ def execute(ctx, name, universe, behaviours, emb, jobs=8, qtimeout=10, timeout=1
             req = dict(i=i, steps=b.steps, obs=b.obs)
             if fresh:
                 req["fresh"] = True
+            if via:
+                req["via"] = via
             fh.write(json.dumps(req, separators=(",", ":")) + "\n")
     outp = inp.replace("_in.", "_out.")
     ctx.harness(["kvidx", "-j", str(jobs), "-timeout", "120s"], input_path=inp, output_path=outp, timeout=timeout,
@@ -289,34 +298,37 @@ def execute(ctx, name, universe, behaviours, emb, jobs=8, qtimeout=10, timeout=1
     return outs, defs
 
 
-def first_divergence(b, o, cmpr, emb):
+def first_divergence(b, o, cmpr, emb, via=None):
     """The first step of behaviour b at which the real index departs from the spec, as
     (signature, what, replay object), or None.  Also returns the number of observations compared."""
     if "harness_err" in o:
         raise Inconclusive("harness: %s" % o["harness_err"])
     if "died" in o:
         raise Inconclusive("worker died without a Go panic: %s" % o.get("trace", "")[-500:])
-    base = dict(steps=b.steps, obs=b.obs, emb=emb)
+    site = "kvindex[batch write]" if via == "batch" else "kvindex"
+    base = dict(steps=b.steps, obs=b.obs, emb=emb, via=via or "AddDoc")
+    if "touch_hang" in o:
+        raise Inconclusive("a count query did not return while replaying: %s" % json.dumps(o["touch_hang"])[:600])
     if "crash" in o or "hang" in o:
         kind = "crash" if "crash" in o else "hang"
-        return ("kvindex %s: %s" % (kind, o[kind]), "a history made the index code %s" % kind,
+        return ("%s %s: %s" % (site, kind, o[kind]), "a history made the index code %s" % kind,
                 dict(base, trace=o.get("trace", "")[-3000:])), 0
     errs = {e["k"]: e for e in o.get("errs", [])}
     pan = o.get("panic")
     nobs = 0
     for k in range(len(b.steps)):
-        cut = dict(steps=b.steps[:k + 1], obs=b.obs[:k + 1], emb=emb, step=k)
+        cut = dict(steps=b.steps[:k + 1], obs=b.obs[:k + 1], emb=emb, step=k, via=via or "AddDoc")
         if pan and pan["k"] == k:
-            site = re.sub(r"0x[0-9a-f]+|\d+", "N", pan["panic"].splitlines()[0])[:100]
-            return ("kvindex panic in %s: %s" % (pan["op"], site), "panic in the calling goroutine",
+            psite = re.sub(r"0x[0-9a-f]+|\d+", "N", pan["panic"].splitlines()[0])[:100]
+            return ("%s panic in %s: %s" % (site, pan["op"], psite), "panic in the calling goroutine",
                     dict(cut, panic=pan["panic"][:2000])), nobs
         if k in errs:
             e = errs[k]
             cls = re.sub(r"[^ -~]", "?", e["err"])
-            return ("kvindex.%s returns error" % e["op"],
+            return ("%s.%s returns error" % (site, e["op"]),
                     "%s failed (%s) on a history the property covers: the operation is not performed"
                     % (e["op"], cls[:120]), dict(cut, error=cls)), nobs
-        if not b.obs[k]:
+        if b.obs[k] in (False, 0, 2):
             continue
         oid = o["o"][k] if k < len(o.get("o", [])) else None
         if oid is None:
@@ -327,7 +339,7 @@ def first_divergence(b, o, cmpr, emb):
         if probs:
             m, shape, detail = probs[0]
             also = ", ".join(sorted({"%s %s" % (p[0], p[1]) for p in probs[1:]})) or "nothing"
-            return ("kvindex.%s %s" % (m, shape),
+            return ("%s.%s %s" % (site, m, shape),
                     "%s differs from the scan of the live documents (%s) after step %d = %s [observed %s]; also differing there: %s"
                     % (m, shape, k + 1, json.dumps(b.steps[k]), b.sched, also),
                     dict(cut, live=st, query=m, detail=detail, sched=b.sched)), nobs
@@ -336,7 +348,7 @@ def first_divergence(b, o, cmpr, emb):
 
 def nontrivial(b):
     for k, (sk, st) in enumerate(b.states):
-        if b.obs[k] and st and st["fields"] and any(set(v) & set(st["fields"]) for v in st["docs"].values()):
+        if b.obs[k] not in (False, 0, 2) and st and st["fields"] and any(set(v) & set(st["fields"]) for v in st["docs"].values()):
             return True
     return False
 
@@ -350,18 +362,20 @@ def corrupt_answers(answers):
                 return
 
 
-def replay_and_compare(ctx, name, universe, behaviours, answers, emb="halves", jobs=8, qtimeout=10, timeout=1500):
+def replay_and_compare(ctx, name, universe, behaviours, answers, emb="halves", jobs=8, qtimeout=10, timeout=1500, via=None):
     """Screening: all behaviours in per-behaviour namespaces of shared stores.  Verdict: the shortest
     divergent behaviours of every signature are re-run alone on a fresh, empty store; only what
     reproduces there is reported as a divergence."""
     if os.environ.get("C09_SELFTEST_CORRUPT") == "1":
         corrupt_answers(answers)
-    outs, defs = execute(ctx, name, universe, behaviours, emb, jobs=jobs, qtimeout=qtimeout, timeout=timeout)
-    cmpr = Comparer(answers, defs)
+    if via:
+        name = "%s_%s" % (name, via)
+    outs, defs = execute(ctx, name, universe, behaviours, emb, jobs=jobs, qtimeout=qtimeout, timeout=timeout, via=via)
+    cmpr = Comparer(answers, defs, universe)
     found = {}  # signature -> [count, [(length, behaviour index)]]
     observations = nt = 0
     for i, b in enumerate(behaviours):
-        first, nobs = first_divergence(b, outs[i], cmpr, emb)
+        first, nobs = first_divergence(b, outs[i], cmpr, emb, via)
         observations += nobs
         if nontrivial(b):
             nt += 1
@@ -381,11 +395,11 @@ def replay_and_compare(ctx, name, universe, behaviours, answers, emb="halves", j
             cand.append((sig, n, behaviours[i]))
     if cand:
         outs2, defs2 = execute(ctx, name + "_confirm", universe, [c[2] for c in cand], emb, jobs=min(4, len(cand)),
-                               qtimeout=qtimeout, timeout=600, fresh=True)
-        cmpr2 = Comparer(answers, defs2)
+                               qtimeout=qtimeout, timeout=600, fresh=True, via=via)
+        cmpr2 = Comparer(answers, defs2, universe)
         confirmed = set()
         for j, (sig, n, b) in enumerate(cand):
-            first, _ = first_divergence(b, outs2[j], cmpr2, emb)
+            first, _ = first_divergence(b, outs2[j], cmpr2, emb, via)
             if first and first[0] == sig:
                 confirmed.add(sig)
                 ctx.diverge(sig, "%s (first divergence of %d behaviours of %s)" % (first[1], n, name), first[2])
@@ -420,13 +434,25 @@ def gen_exhaustive(ctx, cfg):
         maxlen = max(maxlen, len(h))
     del nodes
     behaviours = []
+    full_seen = set()
     for hk, (h, k) in by_h.items():
         sts = []
         for j in range(1, len(h) + 1):
             kk = by_h[json.dumps(h[:j], sort_keys=True)][1]
             sts.append((kk, states[kk]))
         if len(h) == maxlen:
-            behaviours.append(Beh(h, sts, obs_all(len(h)), "after every step"))
+            # queries after every step.  The same prefix is shared by many histories: its full observation is made
+            # (and compared) in one of them, the others only run the queries that write (2), so that the
+            # implementation state is the same
+            obs = []
+            for j in range(1, len(h) + 1):
+                pk = json.dumps(h[:j], sort_keys=True)
+                if pk in full_seen:
+                    obs.append(2)
+                else:
+                    full_seen.add(pk)
+                    obs.append(1)
+            behaviours.append(Beh(h, sts, obs, "after every step"))
         if len(h) >= 2:
             behaviours.append(Beh(h, sts, obs_last(len(h)), "only after the last step"))
     return uni, states, behaviours, dict(histories=len(by_h), maxlen=maxlen, tlc_states=res.distinct)
@@ -491,10 +517,11 @@ def volume_probe(ctx, sizes):
         states[k] = st
         behaviours.append(Beh(steps, [(None, None)] * (len(steps) - 1) + [(k, st)], obs_last(len(steps)),
                               "only after the last step"))
-    res_answers = run_oracle(ctx, "KVIndex_vol.cfg", states, label="oracle volume")
+    # the oracle's own sanity laws are checked on the small universes; their naive recursion is slow on hundreds of documents
+    res_answers = run_oracle(ctx, "KVIndex_vol.cfg", states, label="oracle volume", sanity=False)
     uni = run_oracle.universe
     outs, defs = execute(ctx, "volume", uni, behaviours, "halves", jobs=1, qtimeout=4, timeout=300, fresh=True)
-    cmpr = Comparer(res_answers, defs)
+    cmpr = Comparer(res_answers, defs, uni)
     hangs = []
     nobs = 0
     for i, b in enumerate(behaviours):
@@ -525,11 +552,13 @@ def volume_probe(ctx, sizes):
 
 
 # ----------------------------------------------------------------------------- driver
+B = ("halves", "batch")   # documents written with AddDocTx on a write-only batch (kvgraph's way)
+H, X = ("halves", None), ("extreme", None)
 PLAN = {
-    "quick": dict(exh=[("KVIndex_q1.cfg", ["halves"]), ("KVIndex_q2.cfg", ["halves"])],
-                  sim=[("KVIndex_sim.cfg", 250, ["halves", "extreme"])], volume=[150, 260]),
-    "thorough": dict(exh=[("KVIndex_t1.cfg", ["halves"]), ("KVIndex_q1.cfg", ["extreme"]), ("KVIndex_t2.cfg", ["halves"])],
-                     sim=[("KVIndex_simt.cfg", 2500, ["halves", "extreme"])], volume=[150, 260]),
+    "quick": dict(exh=[("KVIndex_q1.cfg", [H]), ("KVIndex_q2.cfg", [H, B])],
+                  sim=[("KVIndex_sim.cfg", 150, [H, X]), ("KVIndex_simnr.cfg", 100, [B])], volume=[150, 260]),
+    "thorough": dict(exh=[("KVIndex_t0.cfg", [H, X]), ("KVIndex_t1.cfg", [H]), ("KVIndex_t2.cfg", [H, B])],
+                     sim=[("KVIndex_simt.cfg", 2000, [H, X]), ("KVIndex_simnr.cfg", 1000, [B])], volume=[150, 260]),
 }
 
 ASSUMPTIONS = [
@@ -545,7 +574,8 @@ ASSUMPTIONS = [
     "terms are strings and float64 (other JSON types make AddDoc fail as unsupported and are not generated); no empty string, "
     "no -0.0/NaN/Inf; numbers are spec integers mapped by a strictly increasing embedding (k/2, and a table of float64 "
     "sign/magnitude boundary values: +-MaxFloat64, +-MaxFloat64/2, +-1e200, +-1e100, +-SmallestNonzeroFloat64, 0)",
-    "documents are written with KVIndex.AddDoc; AddDocTx on a write-only batch (as kvgraph uses it) is not exercised here",
+    "documents are written with KVIndex.AddDoc; the 2-field exhaustive cfg and the replacement-free random walks "
+    "(Avoid = {replace}) are replayed a second time with AddDocTx on a write-only batch, the way kvgraph feeds the index",
     "store: Badger only; single client (no concurrent calls); all behaviours are screened in per-behaviour namespaces "
     "(field path and document id renamed injectively) of shared stores with a new KVIndex object each, and every divergence "
     "is reported only after it reproduced alone on a newly created empty store",
@@ -563,7 +593,13 @@ def run(ctx):
 
 
 def _run(ctx):
-    plan = PLAN[ctx.tier]
+    plan = dict(PLAN[ctx.tier])
+    only = os.environ.get("C09_ONLY")  # development aid: comma separated substrings of cfg names
+    if only:
+        keep = lambda c: any(x in c for x in only.split(","))
+        plan = dict(exh=[e for e in plan["exh"] if keep(e[0])], sim=[e for e in plan["sim"] if keep(e[0])],
+                    volume=plan["volume"] if keep("KVIndex_vol.cfg") else [])
+        ctx.notes.append("partial run: C09_ONLY=%s" % only)
     tot = dict(behaviours=0, observations=0, nontrivial=0, queries=0)
     parts = []
 
@@ -577,24 +613,26 @@ def _run(ctx):
         answers = run_oracle(ctx, cfg, states, label="oracle " + cfg)
         ctx.log("%s: %d histories (all up to length %d), %d abstract states, %d replays" % (
             cfg, info["histories"], info["maxlen"], len(states), len(behaviours)))
-        for emb in embs:
-            r = replay_and_compare(ctx, cfg.split(".")[0].replace("KVIndex_", ""), uni_norm(uni), behaviours, answers, emb=emb)
-            account(cfg, emb, r, dict(info, exhaustive=True))
+        for emb, via in embs:
+            r = replay_and_compare(ctx, cfg.split(".")[0].replace("KVIndex_", ""), uni_norm(uni), behaviours, answers,
+                                   emb=emb, via=via)
+            account(cfg, emb, r, dict(info, exhaustive=True, written_with=via or "AddDoc"))
         if len(ctx.cov["samples"]) < 3:
             b = behaviours[len(behaviours) // 2]
             ctx.sample(dict(cfg=cfg, steps=b.steps, observed=b.sched, live_after_last_step=b.states[-1][1],
                             expected_answers_after_last_step=answers[b.states[-1][0]]))
         del behaviours, answers, states
     for cfg, num, embs in plan["sim"]:
-        for n, emb in enumerate(embs):
+        for n, (emb, via) in enumerate(embs):
             uni, states, behaviours, info = gen_walks(ctx, cfg, num, seed=ctx.seed * 7919 + n)
             answers = run_oracle(ctx, cfg, states, label="oracle " + cfg)
             ctx.log("%s: %d random histories of length %d, %d abstract states" % (cfg, info["histories"], info["maxlen"], len(states)))
-            r = replay_and_compare(ctx, "sim_" + emb, uni_norm(uni), behaviours, answers, emb=emb)
-            account(cfg, emb, r, dict(info, exhaustive=False))
+            r = replay_and_compare(ctx, "sim_" + emb, uni_norm(uni), behaviours, answers, emb=emb, via=via)
+            account(cfg, emb, r, dict(info, exhaustive=False, written_with=via or "AddDoc"))
             del behaviours, answers, states
-    r = volume_probe(ctx, plan["volume"])
-    account("KVIndex_vol.cfg n=%s" % plan["volume"], "halves", r, dict(histories=len(plan["volume"]), exhaustive=False))
+    if plan["volume"]:
+        r = volume_probe(ctx, plan["volume"])
+        account("KVIndex_vol.cfg n=%s" % plan["volume"], "halves", r, dict(histories=len(plan["volume"]), exhaustive=False))
     ctx.cov.update(
         evaluations=tot["queries"], distinct_nontrivial=tot["nontrivial"], traces_validated_against_impl=tot["behaviours"],
         observations=tot["observations"], exhaustive=True, runs=parts,
@@ -618,16 +656,17 @@ def run_replay(ctx):
     k = skey(st)
     answers = run_oracle(ctx, "KVIndex_sim.cfg", {k: st})
     uni = run_oracle.universe
-    obs = [bool(x) for x in (rep.get("obs") or obs_last(len(steps)))][:len(steps)]
+    obs = list(rep.get("obs") or obs_last(len(steps)))[:len(steps)]
     obs[-1] = True
     states = [(None, None)] * (len(steps) - 1) + [(k, st)]
     b = Beh(steps, states, obs, rep.get("sched", "as recorded"))
-    outs, defs = execute(ctx, "replay", uni, [b], rep.get("emb", "halves"), jobs=1, qtimeout=4, fresh=True)
+    via = rep.get("via") if rep.get("via") == "batch" else None
+    outs, defs = execute(ctx, "replay", uni, [b], rep.get("emb", "halves"), jobs=1, qtimeout=4, fresh=True, via=via)
     o = outs[0]
     # earlier observations are executed (the count queries write) but only the last one is compared
     o["o"] = [None] * (len(steps) - 1) + [o["o"][-1] if o.get("o") else None]
     b.obs = obs_last(len(steps))
-    first, _ = first_divergence(b, o, Comparer(answers, defs), rep.get("emb", "halves"))
+    first, _ = first_divergence(b, o, Comparer(answers, defs, uni), rep.get("emb", "halves"), via)
     if first:
         ctx.diverge(first[0], first[1] + " (reproduced from the replay file)", first[2])
     ctx.log("replay: %s" % (first[0] if first else "no divergence"))
